@@ -41,7 +41,7 @@ pub const DC: &str = "epserde::traits::DeepCopy";
 pub fn fixed_universe() -> Universe {
     use CopyKind::*;
     use Prim::*;
-    let mut u = Universe { label: "fixed".into(), adts: vec![], subjects: vec![] };
+    let mut u = Universe { label: "fixed".into(), adts: vec![], subjects: vec![], pairs: vec![] };
     let mut add = |d: AdtDef| -> usize {
         u.adts.push(d);
         u.adts.len() - 1
